@@ -8,7 +8,7 @@ package main
 // Not generated, because the unchanged tree is known to fail on them (known_findings.d/C17.txt,
 // each explored deterministically through the corpus files that contain them): c"..." / py"..."
 // literals (R1), matrix literals (R3), a command-style call
-// directly followed by a blank and "}" (R4), an indexed slice literal [..][i] (R5).
+// directly followed by a blank and "}" (R4), a label directly before "}" (R6).
 
 import (
 	"fmt"
@@ -32,7 +32,7 @@ func (g *xgen) expr(d int) string {
 	if d <= 0 {
 		return g.pick("x", "y", "1", "42", "3.14", "0x7f", "1e3", "2i", "3r", "'c'", `"s"`, "`raw`", "true", "nil", "10m", "3s", "${HOME}", "$name", `"a${x}b"`, `"$$x ${y+1}"`)
 	}
-	switch g.r.Intn(33) {
+	switch g.r.Intn(38) {
 	case 0, 1:
 		return g.expr(d-1) + g.pick(" + ", " - ", " * ", " / ", " % ", " << ", " && ", " || ", " == ", " != ", " < ", " &^ ", " | ") + g.expr(d-1)
 	case 2:
@@ -64,7 +64,7 @@ func (g *xgen) expr(d int) string {
 	case 15:
 		return "f(" + g.pick("x => x*2", "(a, b) => a+b", "=> 1", "x => { return x }", "(a, b) => (b, a)") + ")"
 	case 16:
-		return "f(" + g.expr(d-1) + ")" + g.pick("!", "?", "?:"+g.expr(0))
+		return "f(" + g.expr(d-1) + ")" + g.pick("!", "?", "?:"+g.expr(0), "!:"+g.expr(0))
 	case 17:
 		return "[" + g.expr(d-1) + " for v in " + g.expr(0) + g.pick("", " if v > 1") + "]"
 	case 18:
@@ -91,6 +91,14 @@ func (g *xgen) expr(d int) string {
 		return "[]" + g.chanType() + "{}"
 	case 29:
 		return "func(a " + g.typ() + ") " + g.chanType() + " { return nil }"
+	case 33:
+		// an indexed / sliced slice literal, also as the operand of !, ?, ?:d, !:d
+		return "[" + g.expr(d-1) + ", " + g.expr(0) + "]" + g.pick("[0]", "["+g.expr(0)+"]", "[1:]", "[:1]")
+	case 34:
+		return "println([" + g.expr(0) + "][0], [" + g.expr(0) + ", " + g.expr(0) + "][1])"
+	case 35:
+		// error wrapping: every operator with and without a default value
+		return "f(" + g.expr(d-1) + ")" + g.pick("!", "?", "?:"+g.expr(0), "!:"+g.expr(0), "!:("+g.expr(d-1)+")", "?:("+g.expr(d-1)+")")
 	case 30:
 		return g.pick("json`{\"a\": 1}`", "tpl`a = INT`", "P[int, string]{}", "f[int, string](1)", "new("+g.typ()+")")
 	default:
